@@ -115,7 +115,7 @@ fn reference(b: &Built) -> (Vec<Vec<String>>, bool) {
             tops.push(gl[*k].clone());
         }
         let p = Program { tops };
-        let t = refsylt::run(&p, 200_000, true);
+        let t = refsylt::run_in_source_order(&p, 200_000);
         match t.end {
             End::Done => {
                 any_valid = true;
